@@ -3,6 +3,7 @@ package main
 import (
 	"fmt"
 	"go/types"
+	"os"
 	"sort"
 	"strings"
 
@@ -482,7 +483,18 @@ func (ex *Exec) applyContractVals(fr *Frame, in ssa.Instruction, ct *Contract, c
 	for _, g := range ct.Ghost {
 		env2.vars[g.Name] = env.vars[g.Name]
 	}
+	// vacuity guard: assuming a clause `A ==> B` must not make A impossible when it was possible before
+	// (the callee is verified against its contract, so every real post-state with A also has B; if the
+	// abstraction disagrees, side assumptions of the engine are contradictory and everything after the
+	// call on the A-paths would be proved vacuously). Checked for the first applications of every callee
+	// in every function, on the quantifier-free part of the path condition.
+	if ex.vacChecks == nil {
+		ex.vacChecks = map[string]int{}
+	}
+	vac := ex.vacChecks[short] < 2
+	ex.vacChecks[short]++
 	for _, c := range ct.Ensures {
+		n0 := len(st.assumes)
 		g, err := env2.EvalBool(c.Expr)
 		if err != nil {
 			if strings.Contains(err.Error(), "callres:") {
@@ -492,6 +504,24 @@ func (ex *Exec) applyContractVals(fr *Frame, in ssa.Instruction, ct *Contract, c
 			panic(abortPath{fmt.Sprintf("contract of %s: ensures %q: %v", calleeName, c.Text, err)})
 		}
 		st.Assume(g)
+		if vac && !g.IsTrue() {
+			gs := Subst(g, st.substMap())
+			ante := True
+			if gs.Op == "=>" {
+				ante = gs.Args[0]
+			}
+			after := boundaryPrune.Status(append(append([]*Term{}, st.assumes...), ante))
+			before := "-"
+			if after == "unsat" {
+				before = boundaryPrune.Status(append(append([]*Term{}, st.assumes[:n0]...), ante))
+			}
+			if os.Getenv("GOV_DEBUG") != "" {
+				fmt.Printf("VACCHECK %s#%s in %s: after=%s before=%s\n", short, c.Label, ex.rootName, after, before)
+			}
+			if after == "unsat" && before == "sat" {
+				ex.fail("ENGINE-VACUITY: clause " + c.Label + " of " + short + " is contradictory at a call site in " + ex.rootName + ": nothing after that call would be checked")
+			}
+		}
 		st.learn(g)
 	}
 	logCall(st, short, sig, results)
